@@ -36,6 +36,7 @@ class MProg:
     subs: list = field(default_factory=list)     # [(name, params, body)] move subroutines
     arg_tuples: list = field(default_factory=list)
     tags: set = field(default_factory=set)
+    spec_consts: bool = False    # prologue also reads spec constants (cf, ci, c0) used as gate angles
 
 
 NATIVE_MARKERS = [False]      # render(..., native_markers=True) marks early returns for the native evaluator
@@ -103,6 +104,12 @@ def render_stmts(stmts, ind, out):
 def prologue(prog, out):
     out.append("    z0 = spec.get_static_trap(zone_id=\"traps\")")
     out.append("    z1 = spec.get_static_trap(zone_id=\"aux\")")
+    if prog.spec_consts:
+        # "dup" is an int constant AND a different float constant; "origin"/"zero" are falsy values
+        out.append("    cf = spec.get_float_constant(constant_id=\"dup\")")
+        out.append("    ci = spec.get_int_constant(constant_id=\"dup\")")
+        out.append("    c0 = spec.get_float_constant(constant_id=\"origin\")")
+        out.append("    cz = spec.get_int_constant(constant_id=\"zero\")")
     for var, kern, rev in prog.devs:
         xt, yt = TONES[kern]
         e = f"schedule.device_fn({kern}, {xt}, {yt})"
@@ -137,9 +144,11 @@ def _render(prog, decorator, main, sub_decorator):
 
 # ---------------- generation ----------------
 class MG:
-    def __init__(self, rng, *, blocks=True, autos=True, control=True, gates=True, subs=False, depth=3, width=3, const_control=True):
+    def __init__(self, rng, *, blocks=True, autos=True, control=True, gates=True, subs=False, depth=3, width=3, const_control=True,
+                 spec_consts=False):
         self.rng = rng
-        self.o = dict(blocks=blocks, autos=autos, control=control, gates=gates, subs=subs, depth=depth, width=width, const_control=const_control)
+        self.o = dict(blocks=blocks, autos=autos, control=control, gates=gates, subs=subs, depth=depth, width=width, const_control=const_control,
+                      spec_consts=spec_consts)
         self.ncall = 0
         self.tags = set()
         self.devs = [("f0", "k0", False), ("r0", "k0", True), ("f1", "k1", False)]
@@ -190,6 +199,10 @@ class MG:
 
     def other(self):
         rng = self.rng
+        if self.o["spec_consts"] and rng.random() < 0.3:
+            self.tags.add("spec-constant-angle")
+            ang = rng.choice(["cf", "cf * 0.25", "c0", "c0 + 0.125", "cf + c0"])
+            return rng.choice([("gate", "global_rz", [ang]), ("gate", "global_r", [0.5, ang]), ("gate", "local_rz", [ang, rng.choice(["z0", "z1"])])])
         r = rng.random()
         if r < 0.2:
             return ("gate", "top_hat_cz", [rng.choice(["z0", "z1"])] + rng.choice([[], [2.0], [1.5, 4.0]]))
@@ -238,6 +251,9 @@ class MG:
             elif self.o["control"] and depth < 2:
                 v = f"i{len(self.loopvars)}_{rng.randint(0, 99)}"
                 cnt = rng.choice([p for p, a in params if a == "int"] + (["0", "1", "2", "3"] if self.o["const_control"] else []))
+                if self.o["spec_consts"] and getattr(self, "in_main", False) and rng.random() < 0.35:
+                    cnt = rng.choice(["ci", "ci", "cz"])      # trip count read from the spec (int constants)
+                    self.tags.add("spec-constant-trip-count")
                 self.loopvars.append(v)
                 body = self.stmts(rng.randint(1, 2), depth + 1, params)
                 self.loopvars.pop()
@@ -279,14 +295,16 @@ def gen_move_prog(rng, **opts):
         body.append(("closure", "inner", [("cn", "int")], cbody))
         g.subnames = getattr(g, "subnames", []) + ["inner"]
         g.tags.add("closure")
+    g.in_main = True
     body += g.stmts(rng.randint(1, 6), 0, params)
+    g.in_main = False
     args = []
     for t in range(3):
         a = []
         for p, ann in params:
             a.append(rng.choice([0, 1, 2, 3]) if ann == "int" else (rng.random() < 0.5))
         args.append(tuple(a))
-    return MProg(params=params, devs=g.devs, body=body, subs=subs, arg_tuples=args, tags=g.tags)
+    return MProg(params=params, devs=g.devs, body=body, subs=subs, arg_tuples=args, tags=g.tags, spec_consts=g.o["spec_consts"])
 
 
 def all_block_shapes(max_depth, max_width, max_calls):
